@@ -282,7 +282,7 @@ def _run(ctx):
         ctx.state("path_x_class", (pth, "short"))
 
     # 4. random hostile strings and numbers
-    for _ in range(ctx.budget(3000, 400000)):
+    for _ in range(ctx.budget(3000, 3000000)):
         pth = rng.choice(paths)
         if rng.random() < 0.15 and pth not in ("taglist_add", "taglist_radd", "tagify_single"):
             v = gen._num(gen.number_of(rng))
